@@ -60,6 +60,17 @@ def spec_formula(n, E, okind, dflag, share):
     return z3.Not(z3.Or(*bad))
 
 
+_POOL = {}
+
+
+def pooled(key, make):
+    """element objects are re-used across the many networks one worker builds (an element may be used in any number of
+    networks; being placed elsewhere in ANOTHER network is not a duplication)"""
+    if key not in _POOL:
+        _POOL[key] = make()
+    return _POOL[key]
+
+
 def build_and_validate(n, pairs, okind, dflag, share, flagvals=None):
     """build through the public API; edges present per symbolic flag (fork) or concrete flagvals."""
     import sym_metanet as M
@@ -76,7 +87,9 @@ def build_and_validate(n, pairs, okind, dflag, share, flagvals=None):
             if share and share[0] == "link" and (u, v) == share[2] and share[1] in links:
                 lk = links[share[1]]
             else:
-                lk = M.Link(1, 2, 1.0, 180, 30, 100, 1.8, name="samename" if (share and share[0] == "samename") else f"L{u}{v}")
+                same = bool(share and share[0] == "samename")
+                k_ = len(links)
+                lk = pooled(("link", k_, same), lambda: M.Link(1, 2, 1.0, 180, 30, 100, 1.8, name="samename" if same else f"L{k_}"))
             links[(u, v)] = lk
             net.add_link(nodes[u], lk, nodes[v])
     # validation is also called between the construction phases (results ignored): a lookup cached by an
@@ -91,10 +104,13 @@ def build_and_validate(n, pairs, okind, dflag, share, flagvals=None):
             if share and share[0] == "origin" and i == share[2]:
                 o = origins[share[1]]
             else:
-                o = (M.Origin(name=f"O{i}") if (i % 2 == 0) else M.MainstreamOrigin(name=f"O{i}")) if okind[i] == 1 else \
-                    (M.MeteredOnRamp(2000, name=f"O{i}") if (i % 2 == 0) else M.SimplifiedMeteredOnRamp(2000, name=f"O{i}"))
+                k_ = len(origins)
+                alt = (i + k_) % 2 == 0
+                o = pooled(("origin", okind[i], alt, k_), lambda: (
+                    (M.Origin(name=f"O{k_}a") if alt else M.MainstreamOrigin(name=f"O{k_}b")) if okind[i] == 1 else
+                    (M.MeteredOnRamp(2000, name=f"O{k_}c") if alt else M.SimplifiedMeteredOnRamp(2000, name=f"O{k_}d"))))
             if share and share[0] == "samename":
-                o.name = "samename"
+                o = type(o)(2000, name="samename") if okind[i] == 2 else type(o)(name="samename")
             origins[i] = o
             net.add_origin(o, nodes[i])
     try:
@@ -107,9 +123,11 @@ def build_and_validate(n, pairs, okind, dflag, share, flagvals=None):
             if share and share[0] == "dest" and i == share[2]:
                 d = dests[share[1]]
             else:
-                d = M.Destination(name=f"D{i}") if i % 2 == 0 else M.CongestedDestination(name=f"D{i}")
+                k_ = len(dests)
+                alt = (i + k_) % 2 == 0
+                d = pooled(("dest", alt, k_), lambda: M.Destination(name=f"D{k_}a") if alt else M.CongestedDestination(name=f"D{k_}b"))
             if share and share[0] == "samename":
-                d.name = "samename"
+                d = type(d)(name="samename")
             dests[i] = d
             net.add_destination(d, nodes[i])
     ok, msgs = net.is_valid(raises=False)
